@@ -6,7 +6,6 @@ WHY_MISSED = {
  "C03-b": "needs the hub blocked inside store.Topics.Delete while the topic goroutine serves a {pub}: a goroutine interleaving, the sequential harness pumps one handler at a time",
  "C10-b": "'me' topic contact loading (loadContacts/perSubs) is not in the world model",
  "C14-a": "needs cleanUp to cross with the session's own in-flight {sub}: a goroutine interleaving",
- "C10-f": "needs a session whose outgoing queue is full while its user publishes from another session (the topic detaches the stalled session in the middle of the fan-out): stalled connections - the eviction of slow consumers - are not part of the world model or of the harness, which drains every session after every request (A8)",
  "C14-b": "needs a {sub} to cross with pausing of the same topic between hub and topic goroutines: an interleaving",
 }
 def row(sid):
